@@ -113,6 +113,10 @@ type World struct {
 	// hash reuse (variant runs): the leaf added into slot s carries the hash of the dead leaf of slot reuse[s]
 	reuse map[int]int
 	baStk   []blockArgs // the arguments of the blocks applied so far (for Undo)
+	// lifted replay (light-client family): the forest sits on top of liftM*2^liftS live leaves
+	// whose trees are opaque roots (see lift.go); 0 = not lifted
+	liftM uint64
+	highT []string
 	undoEnc int
 	pcached   map[int]bool
 	evlog   func(any)
@@ -228,9 +232,25 @@ func (w *World) remFlag(slot int) bool {
 func (w *World) encTargets(ts []JPos, R uint8) []uint64 {
 	out := make([]uint64, len(ts))
 	for i, t := range ts {
-		out[i] = enc(t.RI(), R)
+		out[i] = w.encR(t.RI(), R)
 	}
 	return out
+}
+
+// rows, encR, big: tree rows, position numbers and leaf counts of the (possibly lifted) forest
+func (w *World) rows(n uint64) uint8 { return treeRows(w.big(n)) }
+func (w *World) big(n uint64) uint64 { return n + w.liftM<<liftS }
+func (w *World) encR(p RI, R uint8) uint64 {
+	if w.liftM > 0 {
+		p = RI{p.Row, p.Idx + w.liftM<<(liftS-uint(p.Row))}
+	}
+	return enc(p, R)
+}
+func (w *World) withHigh(roots []string) []string {
+	if w.liftM == 0 {
+		return roots
+	}
+	return append(append([]string{}, w.highT...), roots...)
 }
 
 // slotHash is the hash of the leaf inserted into slot s.
@@ -361,7 +381,7 @@ type blockArgs struct {
 }
 
 func (w *World) blockArgs(st *Step) blockArgs {
-	R := treeRows(w.n)
+	R := w.rows(w.n)
 	ba := blockArgs{
 		dels:    w.leafHashes(st.D),
 		targets: w.encTargets(st.Pf.T, R),
@@ -502,10 +522,10 @@ func (w *World) applyMod(st *Step) {
 
 func (w *World) checkUpdateData(in *Inst, st *Step, ud *utreexo.UpdateData) {
 	props := []string{"C11"}
-	Rpre := treeRows(st.Upd.Prev)
-	Rpost := treeRows(st.Upd.Prev + uint64(st.K))
-	if ud.PrevNumLeaves != st.Upd.Prev {
-		w.fail(props, in, "upd.prev", "PrevNumLeaves", st.Upd.Prev, ud.PrevNumLeaves)
+	Rpre := w.rows(st.Upd.Prev)
+	Rpost := w.rows(st.Upd.Prev + uint64(st.K))
+	if ud.PrevNumLeaves != w.big(st.Upd.Prev) {
+		w.fail(props, in, "upd.prev", "PrevNumLeaves", w.big(st.Upd.Prev), ud.PrevNumLeaves)
 	}
 	expTd := w.encTargets(st.Upd.Td, Rpost)
 	if !eqU64s(expTd, ud.ToDestroy) {
@@ -518,7 +538,7 @@ func (w *World) checkUpdateData(in *Inst, st *Step, ud *utreexo.UpdateData) {
 	conv := func(ps []PosHash, R uint8) []ph {
 		out := make([]ph, len(ps))
 		for i, p := range ps {
-			out[i] = ph{enc(p.RI(), R), p.Hash}
+			out[i] = ph{w.encR(p.RI(), R), p.Hash}
 		}
 		return out
 	}
